@@ -80,12 +80,19 @@ func histObs(p rtcp.Packet, ops []*Sx) *Sx {
 	seen := map[string]string{}
 	consistent := true
 	marshalled := false
+	var kept []keptSlice
 	for _, o := range ops {
 		var res *Sx
 		full := ""
 		switch o.Y {
 		case "marshal":
-			res = guard(func() *Sx { return bytesRes(p.Marshal()) })
+			res = guard(func() *Sx {
+				out, err := p.Marshal()
+				if err == nil {
+					kept = append(kept, keptSlice{out, append([]byte(nil), out...)})
+				}
+				return bytesRes(out, err)
+			})
 			marshalled = true
 		case "size":
 			res = guard(func() *Sx { return sn(uint64(int64(p.MarshalSize()))) })
@@ -132,7 +139,20 @@ func histObs(p rtcp.Packet, ops []*Sx) *Sx {
 		results = append(results, res)
 	}
 	return sl(sl(sy("results"), sl(results...)), sl(sy("consistent"), sbool(consistent)), sl(sy("final"), packetSx(p)),
-		sl(sy("backing"), sbool(spareUntouched())))
+		sl(sy("backing"), sbool(spareUntouched())), sl(sy("stable"), sbool(keptStable(kept))))
+}
+
+// keptSlice: a slice a Marshal call returned, held on to (not copied) while later calls run, and its content at the time.
+// A result that changes afterwards shares memory with something a later call writes to (a pooled or cached buffer).
+type keptSlice struct{ raw, snap []byte }
+
+func keptStable(k []keptSlice) bool {
+	for _, x := range k {
+		if !bytes.Equal(x.raw, x.snap) {
+			return false
+		}
+	}
+	return true
 }
 
 // containsXR: ExtendedReport.Marshal fills in its blocks' header fields (documented), so String() of a
